@@ -51,7 +51,7 @@ def concretize(v, model, depth=0):
         return {"__class__": v.cls, **{k: concretize(x, model) for k, x in v.fields.items()}}
     if isinstance(v, SeqV):
         n = concretize(v.length, model)
-        n = max(0, min(int(n), 4096))
+        n = max(0, min(int(n), 64))
         out = [concretize(seqs.seq_get(v, i)[0], model) for i in range(n)]
         if v.kind in ("bytes", "bytearray"):
             out = [x % 256 if isinstance(x, int) else x for x in out]    # unread elements are unconstrained in the model
@@ -60,6 +60,14 @@ def concretize(v, model, depth=0):
             except (ValueError, TypeError):
                 return out
         return out
+    from .values import LitSet
+    if isinstance(v, LitSet):
+        out = []
+        for i, x in enumerate(v.items):
+            c = v.cond(i)
+            if c is True or (c is not False and concretize(c, model)):
+                out.append(concretize(x, model))
+        return {"__set__": out}
     if isinstance(v, ExcV):
         return "<%s>" % v.cls
     if isinstance(v, StrV):
@@ -75,6 +83,8 @@ def jsonable(x):
         return {"__bytes__": list(x)}
     if isinstance(x, tuple):
         return {"__tuple__": [jsonable(i) for i in x]}
+    if isinstance(x, (set, frozenset)):
+        return {"__set__": [jsonable(i) for i in x]}
     if isinstance(x, list):
         return [jsonable(i) for i in x]
     if isinstance(x, dict):
@@ -93,6 +103,8 @@ def unjson(x):
             return bytes(x["__bytes__"])
         if "__tuple__" in x:
             return tuple(unjson(i) for i in x["__tuple__"])
+        if "__set__" in x:
+            return set(unjson(i) for i in x["__set__"])
         return {k: unjson(v) for k, v in x.items()}
     if isinstance(x, list):
         return [unjson(i) for i in x]
